@@ -1,0 +1,102 @@
+//go:build verif
+
+package waddrmgr
+
+// Contracts added in wave 3 (strengthening of C03 / C04 / C08; comment only).
+
+// ---- C03: the hardened steps m/purpose'/coin'/account' use btcsuite's LEGACY child rule ----
+// (hdParent / hdIndex record only edges made by (*ExtendedKey).DeriveNonStandard; the standard
+// (*ExtendedKey).Derive records its edges in hdStdParent / hdStdIndex, see contracts/external/wave3_a3.spec)
+//@ func deriveCoinTypeKey(masterNode, scope) (r, err)
+//@   property C03
+//@   requires nonnil: masterNode != nil
+//@   ensures result: err == nil ==> r != nil && fresh(r) && r.isPrivate == masterNode.isPrivate
+//@   ensures failure: err != nil ==> r == nil
+//@   ensures legacy_path: err == nil ==> select(hdParent, select(hdParent, r)) == masterNode && select(hdIndex, r) == scope.Coin + 2147483648
+//@       && (scope.Purpose < 2147483648 ==> select(hdIndex, select(hdParent, r)) == scope.Purpose + 2147483648)
+//@   ensures edges_kept: HD_EDGES_KEPT()
+//@ func deriveAccountKey(coinTypeKey, account) (r, err)
+//@   property C03
+//@   requires nonnil: coinTypeKey != nil
+//@   ensures result: err == nil ==> r != nil && fresh(r) && r.isPrivate == coinTypeKey.isPrivate
+//@   ensures failure: err != nil ==> r == nil
+//@   ensures legacy_child: err == nil ==> select(hdParent, r) == coinTypeKey && select(hdIndex, r) == account + 2147483648
+//@   ensures account_bound: err == nil ==> account <= 2147483646
+//@   ensures edges_kept: HD_EDGES_KEPT()
+
+// ---- C08: the next-index bookkeeping written with a chained address ----
+// serializeWatchOnlyAccountRow builds the row with bytes.Buffer / binary.Write, which the generator
+// does not model. TRUSTED (assumed layout, read off db.go:904-971: the writes are, in order, pubLen
+// (4 bytes LE), the encrypted key, the fingerprint (4), next external index (4), next internal index (4), ...).
+//@ func serializeWatchOnlyAccountRow(encryptedPubKey, masterKeyFingerprint, nextExternalIndex, nextInternalIndex, name, addrSchema) (r, err)
+//@   trusted
+//@   ensures length: err == nil ==> r != nil && len(r) >= 21 + len(encryptedPubKey) + len(name)
+//@   ensures pub_len: err == nil && len(encryptedPubKey) < 4294967296 ==> (forall j Int :: {r[j]} 0 <= j && j < 4 ==> r[j] == le32byte(len(encryptedPubKey), j))
+//@   ensures next_external: err == nil ==> (forall j Int :: {r[j]} 8 + len(encryptedPubKey) <= j && j < 12 + len(encryptedPubKey) ==> r[j] == le32byte(nextExternalIndex, j - 8 - len(encryptedPubKey)))
+//@   ensures next_internal: err == nil ==> (forall j Int :: {r[j]} 12 + len(encryptedPubKey) <= j && j < 16 + len(encryptedPubKey) ==> r[j] == le32byte(nextInternalIndex, j - 12 - len(encryptedPubKey)))
+//@   ensures failure: err != nil ==> r == nil
+
+// nextAddresses registers this closure with OnCommit: only here do the in-memory next index and
+// last address of the branch move, to exactly the values computed by nextAddresses
+//@ func (*ScopedKeyManager).nextAddresses$1()
+//@   property C08 C03
+//@   requires wf: s != nil && s.rootManager != nil && acctInfo != nil && len(addressInfo) >= 1 && s.addrs != nil
+//@   ensures internal_tracking: internal ==> acctInfo.nextInternalIndex == nextIndex && acctInfo.lastInternalAddr == addressInfo[len(addressInfo) - 1].managedAddr
+//@       && acctInfo.nextExternalIndex == old(acctInfo.nextExternalIndex) && acctInfo.lastExternalAddr == old(acctInfo.lastExternalAddr)
+//@   ensures external_tracking: !internal ==> acctInfo.nextExternalIndex == nextIndex && acctInfo.lastExternalAddr == addressInfo[len(addressInfo) - 1].managedAddr
+//@       && acctInfo.nextInternalIndex == old(acctInfo.nextInternalIndex) && acctInfo.lastInternalAddr == old(acctInfo.lastInternalAddr)
+//@   ensures other_accounts_kept: forall o Int :: {select(@H(accountInfo.nextInternalIndex), o)} o != acctInfo ==> select(@H(accountInfo.nextInternalIndex), o) == select(old(@H(accountInfo.nextInternalIndex)), o)
+//@       && select(@H(accountInfo.nextExternalIndex), o) == select(old(@H(accountInfo.nextExternalIndex)), o)
+
+// key of an account row: the account number as 4 little-endian bytes
+//@ spec func u32Arr(n Int) [Int]Int
+//@ axiom u32Arr_def: forall n Int, i Int :: {select(u32Arr(n), i)} select(u32Arr(n), i) == ((0 <= i && i < 4) ? le32byte(n, i) : 0)
+//@ spec func K_u32(n Int) Bytes = mkbytes(4, u32Arr(n))
+//@ func uint32ToBytes(number) (r)
+//@   property C08 C04 C03 C10
+//@   ensures key: bytes(r) == K_u32(number)
+//@   ensures shape: r != nil && len(r) == 4 && fresh(r)
+
+// ---- C04 / C08: account-row decoders (byte-exact, for well-formed length fields) ----
+//@ func deserializeAccountRow(accountID, serializedAccount) (r, err)
+//@   property C04 C08 C10
+//@   ensures bytes_untouched: forall o Int :: {select(@M(uint8), o)} oldalloc(o) ==> select(@M(uint8), o) == select(old(@M(uint8)), o)
+//@   ensures failure: err != nil ==> r == nil
+//@   ensures result: err == nil ==> r != nil && fresh(r) && len(serializedAccount) >= 5 && r.acctType == serializedAccount[0]
+//@       && len(r.rawData) == le32(serializedAccount[1], serializedAccount[2], serializedAccount[3], serializedAccount[4])
+//@   ensures raw: err == nil && 5 + len(r.rawData) <= len(serializedAccount) ==> (forall j Int :: {r.rawData[j]} 0 <= j && j < len(r.rawData) ==> r.rawData[j] == serializedAccount[j + 5])
+//@ macro DD_PL(raw) = le32(raw[0], raw[1], raw[2], raw[3])
+//@ macro DD_VL(raw) = le32(raw[4 + DD_PL(raw)], raw[5 + DD_PL(raw)], raw[6 + DD_PL(raw)], raw[7 + DD_PL(raw)])
+//@ macro DD_NL(raw) = le32(raw[16 + DD_PL(raw) + DD_VL(raw)], raw[17 + DD_PL(raw) + DD_VL(raw)], raw[18 + DD_PL(raw) + DD_VL(raw)], raw[19 + DD_PL(raw) + DD_VL(raw)])
+//@ macro DD_OK(raw) = (len(raw) < 2147483648 && DD_PL(raw) + DD_VL(raw) + DD_NL(raw) + 20 <= len(raw))
+//@ func deserializeDefaultAccountRow(accountID, row) (r, err)
+//@   property C04 C08 C10
+//@   ensures bytes_untouched: forall o Int :: {select(@M(uint8), o)} oldalloc(o) ==> select(@M(uint8), o) == select(old(@M(uint8)), o)
+//@   ensures failure: err != nil ==> r == nil
+//@   ensures result: err == nil ==> r != nil && fresh(r) && r.acctType == old(row.acctType)
+//@   ensures lengths: err == nil && DD_OK(row.rawData) ==> len(r.pubKeyEncrypted) == DD_PL(row.rawData) && len(r.privKeyEncrypted) == DD_VL(row.rawData) && len(r.name) == DD_NL(row.rawData)
+//@   ensures indices: err == nil && DD_OK(row.rawData) ==> r.nextExternalIndex == le32(row.rawData[8 + DD_PL(row.rawData) + DD_VL(row.rawData)], row.rawData[9 + DD_PL(row.rawData) + DD_VL(row.rawData)], row.rawData[10 + DD_PL(row.rawData) + DD_VL(row.rawData)], row.rawData[11 + DD_PL(row.rawData) + DD_VL(row.rawData)])
+//@       && r.nextInternalIndex == le32(row.rawData[12 + DD_PL(row.rawData) + DD_VL(row.rawData)], row.rawData[13 + DD_PL(row.rawData) + DD_VL(row.rawData)], row.rawData[14 + DD_PL(row.rawData) + DD_VL(row.rawData)], row.rawData[15 + DD_PL(row.rawData) + DD_VL(row.rawData)])
+//@   ensures pub: err == nil && DD_OK(row.rawData) ==> (forall j Int :: {r.pubKeyEncrypted[j]} 0 <= j && j < len(r.pubKeyEncrypted) ==> r.pubKeyEncrypted[j] == row.rawData[j + 4])
+
+// ---- C04: converting to watching-only rewrites each default account row WITHOUT the private key and with
+// the two next indices where they were (closure of deletePrivateKeys run for each account row k -> v; `bucket` is the
+// captured account bucket). Stated on the bytes of the old value v and of the value stored for k afterwards:
+// v = <type 1><rdlen 4><publen 4><pub><privlen 4><priv><ext 4><int 4><namelen 4><name>; the guard assumes well-formed lengths.
+//@ macro DPK_NV() = VAL(bid(bucket), bytes(k))
+//@ macro DPK_RD() = le32(v[1], v[2], v[3], v[4])
+//@ macro DPK_PL() = le32(v[5], v[6], v[7], v[8])
+//@ macro DPK_VL() = le32(v[9 + DPK_PL()], v[10 + DPK_PL()], v[11 + DPK_PL()], v[12 + DPK_PL()])
+//@ macro DPK_NL() = le32(v[21 + DPK_PL() + DPK_VL()], v[22 + DPK_PL() + DPK_VL()], v[23 + DPK_PL() + DPK_VL()], v[24 + DPK_PL() + DPK_VL()])
+//@ macro DPK_EXT() = le32(v[13 + DPK_PL() + DPK_VL()], v[14 + DPK_PL() + DPK_VL()], v[15 + DPK_PL() + DPK_VL()], v[16 + DPK_PL() + DPK_VL()])
+//@ macro DPK_INT() = le32(v[17 + DPK_PL() + DPK_VL()], v[18 + DPK_PL() + DPK_VL()], v[19 + DPK_PL() + DPK_VL()], v[20 + DPK_PL() + DPK_VL()])
+//@ macro DPK_GUARD() = (err == nil && v != nil && len(v) >= 5 && v[0] == 0 && len(v) < 2147483648 && 5 + DPK_RD() <= len(v) && DPK_PL() + DPK_VL() + DPK_NL() + 20 <= DPK_RD())
+//@ func deletePrivateKeys$1$1(k, v) (err)
+// (C10 keeps the run-time-check obligations of this closure, which it owned through the auto rule before the closure had a contract)
+//@   property C04 C10
+//@   ensures rewritten@C04: DPK_GUARD() ==> HAS(bid(bucket), bytes(k)) && bat(DPK_NV(), 0) == 0
+//@   ensures public_key_kept@C04: DPK_GUARD() ==> (forall j Int :: {bat(DPK_NV(), j)} 5 <= j && j < 9 ==> bat(DPK_NV(), j) == le32byte(DPK_PL(), j - 5)) && (forall j Int :: {bat(DPK_NV(), j)} 9 <= j && j < 9 + DPK_PL() ==> bat(DPK_NV(), j) == v[j])
+//@   ensures private_key_dropped@C04: DPK_GUARD() ==> (forall j Int :: {bat(DPK_NV(), j)} 9 + DPK_PL() <= j && j < 13 + DPK_PL() ==> bat(DPK_NV(), j) == le32byte(0, j - 9 - DPK_PL()))
+//@   ensures external_index_in_place@C04: DPK_GUARD() ==> (forall j Int :: {bat(DPK_NV(), j)} 13 + DPK_PL() <= j && j < 17 + DPK_PL() ==> bat(DPK_NV(), j) == le32byte(DPK_EXT(), j - 13 - DPK_PL()))
+//@   ensures internal_index_in_place@C04: DPK_GUARD() ==> (forall j Int :: {bat(DPK_NV(), j)} 17 + DPK_PL() <= j && j < 21 + DPK_PL() ==> bat(DPK_NV(), j) == le32byte(DPK_INT(), j - 17 - DPK_PL()))
+//@   ensures untouched_otherwise@C04: v == nil ==> err == nil && DB_SAME()
